@@ -23,7 +23,7 @@ import c04deltas as CD
 sys.path.insert(0, os.path.join(vlib.VERIF, "tools", "translate"))
 
 THEOREMS = ["C04_doc_literals_lex", "C04_errors_or_sentence", "C04_check_all_sound", "C04_check_discriminates", "C04_complete_partial",
-            "C04_accessors_reach", "C04_accessors_cover_refuted"]
+            "C04_accessors_reach", "C04_accessors_cover_refuted", "C04_complete_for", "C04_complete_type", "C04_complete_rangelist", "C04_complete_rangesuffix", "C04_token_level_refines", "C04_token_level_frame"]
 TRANSLATORS = ["t_tokens", "t_lextables", "t_grammar", "t_ast", "t_docgrammar"]
 TRUSTED = [
     "Coq 8.16.1 kernel incl. vm_compute for the reflective obligations over the generated grammar program / documented grammar / accessor table",
@@ -198,6 +198,39 @@ def class_substitutions(gr, sents, rng):
     return out
 
 
+def theorem_instances(rng, n):
+    """sentences whose interesting part is a word of a nonterminal covered by the infinite-language completeness theorems
+    (Type: nesting depth up to 12; RangeList: up to 60 pieces), embedded in places where the followers are admissible"""
+    def integer():
+        return rng.choice(["0", "7", "42", "0b101", "0x1F", "123456"])
+    def typ(d):
+        if d <= 0 or rng.random() < 0.15:
+            return rng.choice(["bit", "int", "string", "dag", "bits<%s>" % rng.choice(["1", "8", "64"]), "Foo"])
+        return "list<%s>" % typ(d - 1)
+    def piece():
+        a, b = integer(), rng.choice(["1", "9", "31", "0b11"])
+        d = rng.choice(["1", "9", "31"])        # after `-` only decimal: `-0b11` lexes as IntVal(-0) Id(b11)
+        return rng.choice([a, "%s-%s" % (a, d), "%s - %s" % (a, b), "%s...%s" % (a, b), "%s -%d" % (a, rng.randint(0, 9))])
+    def rlist(k):
+        return rng.choice([", ", ","]).join(piece() for _ in range(k))
+    out = []
+    for i in range(n):
+        c = i % 6
+        if c == 0:
+            out.append("class C { %s f; }" % typ(rng.randint(1, 12)))
+        elif c == 1:
+            out.append("class C<%s a> { %s b = ?; }" % (typ(rng.randint(1, 8)), typ(rng.randint(1, 8))))
+        elif c == 2:
+            out.append("defset %s S = { def X; }" % typ(rng.randint(1, 10)))
+        elif c == 3:
+            out.append("class A { let x{%s} = 0; }" % rlist(rng.randint(1, 60)))
+        elif c == 4:
+            out.append("defvar v = a{%s};" % rlist(rng.randint(1, 60)))
+        else:
+            out.append("foreach i = {%s} in def X;" % rlist(rng.randint(1, 30)))
+    return out
+
+
 def text_of(s):
     return " ".join(x for _, x in s)
 
@@ -325,6 +358,9 @@ def run(ctx):
     s_sound, _ = gen_sentences(gr, d["sound"], rng, n // 3)
     sents = s_must + s_doc + s_sound
     fixed_texts = FIXED + [x["example"] for x in CD.ACCEPT + CD.REJECT]
+    n_fixed = len(fixed_texts)
+    thm_texts = theorem_instances(rng, 40 if ctx.quick else 100)
+    fixed_texts = fixed_texts + thm_texts
     fixed_toks = []
     rf = parse_flat(bindir, fixed_texts)
     for t, r in zip(fixed_texts, rf):
@@ -334,7 +370,11 @@ def run(ctx):
     for tkk, skk in gr.sk.items():
         inv_sk.setdefault(skk, tkk)
     fixed_sents = [[(inv_sk[k], x) for k, x in s] for s in fixed_toks]
-    allc = list(fixed_sents) + list(sents)
+    thm_sents = fixed_sents[n_fixed:]       # instances of C04_complete_type / _rangelist / _rangesuffix: far beyond the generator's bounds
+    fixed_sents = fixed_sents[:n_fixed]
+    allc = list(fixed_sents) + list(sents) + list(thm_sents)
+    for s in thm_sents:
+        allc += variants(s, rng, 2)
     nvar = 5 if ctx.quick else 8
     allc += class_substitutions(gr, fixed_sents + sents, rng)
     for s in fixed_sents:
@@ -430,6 +470,7 @@ def run(ctx):
                           {"property": "C04", "kind": "nonsentence-accepted", "input": ts, "token_kinds": [k for k, _ in small],
                            "errors": rr["errors"], "original": t, "seed": ctx.seed})
     # ---- typed accessors on the clean sentences
+    clean_texts = set(t for _, t in must_clean)
     acc_cases = must_clean[: (1500 if ctx.quick else 8000)]
     acc_texts = [t for _, t in acc_cases]
     trees = L.run_json(os.path.join(bindir, "parsedump"), acc_texts, timeout=1800)
@@ -557,6 +598,9 @@ def run(ctx):
         "sentences_of_must_grammar": npos,
         "non_sentences": nneg,
         "doc_alternatives_total": alts_total,
+        "theorem_instance_sentences": len(thm_sents),
+        "theorem_instance_sentences_clean": sum(1 for s in thm_sents if text_of(s) in clean_texts),
+        "theorem_instance_max_tokens": max([len(s) for s in thm_sents] or [0]),
         "doc_alternatives_exercised": len(used_must),
         "doc_alternatives_unexercised": unexercised,
         "doc_alternatives_per_nonterminal": {nt: "%d/%d" % (len([a for a in all_alts if a[0] == nt and a in used_must]),
